@@ -337,6 +337,11 @@ func (a *Accumulator) WitnessFor(idx int64) ([]Witness, error) {
 	}
 	offset := len(a.roots)
 	for offset > 0 {
+		if a.roots[offset-1] == nil {
+			// empty slot: it holds no item
+			offset -= 1
+			continue
+		}
 		inbound := int64(1) << uint(offset-1)
 		if idx < inbound {
 			witness := make([]Witness, 0, offset-1)
